@@ -53,6 +53,17 @@ CLAIMED = {
             "PARTIAL: what the peer actually received after a reset, kernel buffering (a write to a connection the peer already reset can still return success) and blocking dial/write "
             "durations are runtime behaviour the model cannot exhibit; the accept-then-reset cell is judged on returns/no panic/attempt bounds only.",
             "Coq proof (case analysis of the two-attempt loops over scripted worlds, invariants along send sequences) + exhaustive fault-table differential run"),
+    "C09": ("PARTIAL. Theorems: C09_lockset_sound (for every well-formed trace = every schedule: if each location is Locked by one mutex / Owned by one thread / InitOnly / handed off over a "
+            "channel, any two conflicting accesses are ordered by happens-before), C09_init_before_any_fork, C09_discipline (every access site of the table REGENERATED FROM /repo ON THIS RUN "
+            "by tools/locktab obeys the discipline the policy assigns its field), C09_policy_complete (every struct field written outside a constructor is classified: new shared state "
+            "fails the check), C09_policy_wellformed, C09_lock_order_acyclic (no mutex deadlock cycle), C09_tables (the cached call-graph closures are what their definitions compute), "
+            "C09_bridge (instantiation assumptions I0-I6 spelled out). Supporting run: the real proxy (2-4 listeners of one service, UDP+TCP clients, membership changes through the real "
+            "resolver path) under the race detector, deliveries counted.",
+            "Trusted additionally: the locktab translator (go/ast + go/types over /repo: field accesses, lexically held mutexes, call graph by name, go-roots). Not covered by the theorem: "
+            "instruction-level interleavings and the Go memory model beyond lock/fork/channel edges, sync/atomic and RWMutex read locks (Atomic fields are excluded from plain access), "
+            "multi-hop ownership transfer of pooled buffers, channel capacity/deadlock on full channels, start-up ordering of main (bridge assumption I5), the TCP-backend path under load. "
+            "The race-detector run is supporting evidence only; a report or a lost message there is reported as a violation with the log as replay.",
+            "Coq proof (lockset soundness over abstract traces; vm_compute over the access table translated from the source on every run) + race-detector stress run"),
 }
 
 
